@@ -592,35 +592,59 @@ class C07(Check):
     extracted = ['coq/Variant/model.mli', 'coq/Variant/model.ml', 'ocaml/zconv.ml', 'ocaml/variant_driver.ml']
     harness_sources = ['harness/variant.cpp']
     level_text = ('Theorems in Coq, for every history of assignments, copies, swaps, clears and path mutations through the mutable '
-                  'accessors over any number of Variant variables and arbitrary nested value trees: the model of the lazy-copy '
-                  'representation (heap of reference-counted blocks with nested handles) never follows a handle to a released block, keeps '
-                  'ref = number of handles (variables + handles inside live payloads), writes a payload in place only when it has no other '
-                  'referrer, frees everything when the variables die, and refines the value model: after every operation every variable '
-                  'reports (getType, to*, ==, deep dump) exactly what VariantSpec says, an operation on x changes no other variable, a copy '
-                  'compares equal to its source; laws of the coercions (in-range conversions preserve the value, C wrap-around, '
-                  'int<->double exact, decimal strings parse back). The model is tied to the code by running the extracted model, the '
-                  'extracted spec and the ASan/UBSan/LSan build of the working tree on the same histories; observations, the == matrix, '
-                  'all coercions and the canonical heap shape (sharing structure and every reference count) are compared after every op.')
+                  'accessors over any number of Variant variables and arbitrary nested value trees IN WHICH NO OPERATION STORES INTO A '
+                  'PAYLOAD A VARIANT CONTAINING THAT PAYLOAD (hypothesis `admissible` / `self_containing = false` in every history '
+                  'statement; the code builds a reference cycle there - open finding - and the model is not the code there): the model '
+                  'of the lazy-copy representation (heap of reference-counted blocks with nested handles) never follows a handle to a '
+                  'released block, keeps ref = number of handles (variables + handles inside live payloads), writes a payload in place '
+                  'only when it has no other referrer, frees everything when the variables die, and refines the value model: after every '
+                  'operation every variable reports (getType, ==, deep dump) exactly what VariantSpec says, what was assigned (scalar, '
+                  'string, container, or a Variant/String/container taken by reference from any node of any variable, including the '
+                  'assigned Variant itself) is read back, an operation on x changes no other variable, a copy compares equal to its '
+                  'source; laws of the Spec\'s coercions (in-range conversions preserve the value, C wrap-around, int<->double exact, '
+                  'decimal strings parse back). The model is tied to the code by running the extracted model, the extracted spec and the '
+                  'ASan/UBSan/LSan build of the working tree on the same histories; observations, the == matrix, all coercions and the '
+                  'canonical heap shape (sharing structure and every reference count) are compared after every op.')
     level_note = ('Trusted: Coq kernel, VariantSpec.v (value model and reference coercions), extraction + OCaml driver, harness, generators. '
-                  'Doubles are exact dyadic rationals (no NaN/inf/-0); float->integer casts that are undefined in C++ are not observed. '
-                  'Validated by the correspondence run only: that the reference strtol/strtoul/strtod/%f/int64->double/String::toBool '
-                  'functions of VariantSpec.v are what glibc and String do; that an in-place write of an exclusively owned payload equals '
-                  'the model\'s retire-and-reallocate (the heap shape dump compares sharing and counts, not addresses). '
-                  'Excluded by hypothesis (skipped by harness, model and spec): operations that store into a payload a Variant containing '
-                  'that same payload (v.toList().append(v)); the code then builds a reference cycle, the model is value-semantic there. '
+                  'Doubles are exact dyadic rationals in Coq; infinities and -0 (inside the property, which excludes only NaN) are covered by '
+                  'the stream dblspecial with a hand-written oracle (root-level scalar histories: set/construct/assign/swap/copy, every '
+                  'coercion, ==), not by a theorem; the sign of a zero returned by toDouble is not observed; float->integer casts that are '
+                  'undefined in C++ are not observed. '
+                  'Validated by the correspondence run only: (a) the whole coercion clause as far as the code is concerned - the model\'s '
+                  'observers m_type/m_to_*/meq are the Spec\'s own functions applied to what switch(data->type) reads, so '
+                  'accessors_report_value and the scalar half of equality_is_spec_equality say only that nothing but the tag, the inline '
+                  'scalar or the String payload is read; that the Spec\'s functions equal the C++ casts, glibc strtol/strtoul/strtod/%f, '
+                  'int64->double rounding and String::toBool is checked by running every alternative against every other; (b) that an '
+                  'in-place write of an exclusively owned payload equals the model\'s retire-and-reallocate (the heap shape dump compares '
+                  'sharing and counts, not addresses); (c) the converting constructors Variant(bool|...|String|List|Array|HashMap), which '
+                  'the drivers map to the assignment of the same value to the root (ops csets/csetstr/csetnode). '
+                  'Where the property text is silent the Spec follows the code (documented choices, not theorems of the property): map '
+                  'equality compares entries in insertion order (two maps with the same entries inserted in different orders are unequal); '
+                  'string-vs-scalar equality coerces the string to the scalar\'s type, so == is neither symmetric nor transitive across '
+                  'alternatives ("1.0" == 1 and 1 == "1" but "1.0" != "1"); out-of-range decimal strings convert to the strtol/strtoul '
+                  'saturation value, then wrap to 32 bits; a mutable accessor of the wrong kind on the way along a path replaces the value '
+                  'there by an empty container even when the operation then reports NoPath. '
+                  'Excluded by hypothesis (skipped by harness, model and spec, result `excluded`): operations that store into a payload a '
+                  'Variant containing that same payload - v.toList().append(v), v.toList().front() = v, f = cv.toList() with f two or more '
+                  'levels below v or an item of v that already is a list; the exclusion is decided on values, so it also drops the harmless '
+                  'sub-case of the last form where f\'s list payload is shared and gets replaced instead of written in place. '
                   'Sequential use only (Atomic increments/decrements are plain arithmetic in the model).')
     technique = ('machine-checked proof in Coq (invariant + refinement by induction over histories) about a hand-written Gallina model of '
                  'the copy-on-write heap; model tied to the code by an extracted-model / extracted-spec / implementation correspondence check')
     rule = ('cases = histories over 2-4 Variant variables in the op language of VariantSpec.op (set scalar/string/container at a path, '
-            'assign/copy/swap/clear, mutable accessor + insert/remove/clear at a path, toString + append); streams: every alternative '
-            'against others for coercions and ==; the copy-on-write case split (payload kind x sharer x root/nested with inner/outer '
-            'sharing x write operation, accessor kind matching or not, followed by probes that mutate/release the sharers); random '
-            'root-level, nested and malformed histories; all histories of length <= 3 over a 22-op alphabet (thorough). A case is '
-            'non-trivial when some payload is shared (ref >= 2) at some point or at least two different alternatives are assigned; '
-            'distinct = distinct op text')
-    assumptions = ['doubles restricted to finite exact dyadic rationals m*2^e (NaN, infinities, -0 excluded by the property)',
+            'assign/copy/swap/clear, assign a String/container taken by reference from a node of any variable - mostly a descendant of '
+            'the destination itself, mutable accessor + insert/remove/clear at a path, toString + append) plus the converting '
+            'constructors; streams: every alternative against others for coercions and == (assignment operator or constructor); '
+            'infinities and -0 against each other and ordinary scalars (hand-written oracle); the copy-on-write case split (payload kind '
+            'incl. containers holding an unshared container of their own kind x sharer x root/nested with inner/outer sharing x write '
+            'operation incl. assignment from self / descendant / ancestor / other variable, accessor kind matching or not, followed by '
+            'probes that mutate/release the sharers); random root-level, nested and malformed histories; all histories of length <= 3 '
+            'over a 26-op alphabet (thorough). A case is non-trivial when some payload is shared (ref >= 2) at some point or at least '
+            'two different alternatives are assigned; distinct = distinct op text')
+    assumptions = ['doubles are finite exact dyadic rationals m*2^e in the Coq model; NaN excluded by the property; infinities and -0 only '
+                   'checked against a hand-written oracle (stream dblspecial)',
                    'float -> integer conversions whose truncated value is not representable are undefined in C++ and not observed',
-                   'no operation stores into a payload a Variant that contains that payload (self_containing = false)',
+                   'no operation stores into a payload a Variant that contains that payload (self_containing = false; open finding)',
                    'sequential histories (no concurrent access to one payload)']
 
     def run_impl(self, cases, tag='impl'):
@@ -728,7 +752,8 @@ class C07(Check):
                      'assign 1 - 0 -', 'assign 0 - 1 -', 'assign 0 - 0 l#0', 'assign 1 l#0 0 -', 'assign 0 l#1 0 l#0',
                      'cont 0 - l ins:9999:- 1 -', 'cont 1 - l ins:0:- 1 l#0', 'cont 1 - m ins:9999:62 0 -', 'cont 0 - a ins:9999:- 0 a#0',
                      'cont 0 l#0 l touch 0 -', 'cont 1 - l rem:0 0 -', 'strapp 1 l#0 78', 'clear 0 -', 'swap 0 1', 'copynew 1 0',
-                     'cont 1 m=61 l ins:0:- 0 -', 'sets 1 l#0/l#0 b1']
+                     'cont 1 m=61 l ins:0:- 0 -', 'sets 1 l#0/l#0 b1',
+                     'assignnode 0 - 0 l#0 l', 'assignstr 0 - 0 l#0', 'assignnode 1 - 1 m=61 l', 'assignstr 1 l#0 0 l#1']
             cases = [['@2'] + list(t) for n in (1, 2, 3) for t in itertools.product(alpha, repeat=n)]
             out.append(Stream('exhaustive3', cases, exhaustive=True, note='all histories of length <= 3 over %d ops' % len(alpha)))
         return out
